@@ -40,16 +40,15 @@ META = {
     'level_text': 'Machine-checked: the model of TaskControl._process_filter/_filter_tasks selects exactly what the '
                   'declarative relation Resolves prescribes (names, targets -> producer, `*` patterns -> all matching '
                   'names in definition order, options after a task name consumed by its parser, sub-task of a delayed '
-                  'task) whenever no task is named again after its options were initialised, and errs iff the '
+                  'task; a task named again is selected again and parses nothing), and errs iff the '
                   'arguments do not resolve; --single empties the task_dep of every named task (of the sub-tasks for a '
                   'group) and keeps all named tasks; no argument => default_tasks else all tasks in definition order; '
                   'the processed set is the least set closed under task_dep/calc_dep/setup-of-running-tasks. The model '
                   'is tied to doit on every run by driving TaskControl.process and the run command on generated and '
                   'exhaustively enumerated small cases; the Lean monitor evaluates the full statement on the observed '
                   'runs (exit code, processed set, start order).',
-    'level_note': 'filter_spec carries the decidable hypothesis NoReinit; without it the statement is false of the '
-                  'current code (open finding repeated-name-truncates, counterexample theorem '
-                  'reinit_counterexample). The order clause is proved for every start order satisfying the chunk abstraction of the serial dispatcher (chunkedB, validated on every observed run), not for the dispatcher itself (def order_full needs M1). Closure '
+    'level_note': 'filter_spec is at full strength since /repo dcfe778 (F-C12b); the behaviour before that fix and '
+                  'before 07d690a is kept as reinit_counterexample / pinned_single_counterexample. The order clause is proved for every start order satisfying the chunk abstraction of the serial dispatcher (chunkedB, validated on every observed run), not for the dispatcher itself (def order_full needs M1). Closure '
                   'completeness is proved relative to the decidable certificate closedB, which the driver evaluates '
                   'on every case. fnmatch is modelled for `*`, `?` and literals only; getopt for short clusters and '
                   'exact long names; delayed tasks only at the TaskControl tier; regex targets not modelled.',
@@ -73,14 +72,9 @@ META = {
 
 
 def sig_repeated(w):
-    """open finding: a task is named again after its options were initialised (named twice, or matched by an earlier
-    pattern): Task.init_options returns None and _process_filter drops the rest of the command line.  Recognised by:
-    the Lean model flags the re-initialisation on this argv AND the implementation did exactly what the model of the
-    current code (which reproduces the truncation) predicts."""
-    return bool(w.get('reinit')) and bool(w.get('impl_matches_head'))
-
-
-SIGNATURES = {'repeated-name-truncates': sig_repeated}
+    """F-C12b (fixed in /repo by dcfe778; no longer a known finding, only a label in replays): on an argv that names a
+    task again the implementation selected what the *pinned* model selects."""
+    return bool(w.get('reinit')) and bool(w.get('impl_matches_pinned'))
 
 
 # ----------------------------------------------------------------------------------------------
@@ -140,7 +134,8 @@ def evaluate(cases, workdir, want_cli=True):
         a, s = api.get('sel', ['?']), spec['sel']
         if (a[0] == 'ok') != (s[0] == 'ok') or (a[0] == 'ok' and a[1] != s[1]):
             r['viol'].append({'tier': 'api', 'failed': ['selected-list'], 'impl': a, 'expected': s,
-                              'reinit': reinit, 'impl_matches_head': api_head_ok})
+                              'reinit': reinit, 'impl_matches_head': api_head_ok,
+                              'impl_matches_pinned': a == (m.get('pinned') or {}).get('sel')})
         # ---- cli
         if cli is not None:
             exp_exit = 0 if head['sel'][0] == 'ok' else 3
@@ -170,7 +165,8 @@ def evaluate(cases, workdir, want_cli=True):
             mon = m.get('monitor', [])
             if mon:
                 r['viol'].append({'tier': 'cli', 'failed': mon, 'impl': {k: cli[k] for k in ('exit', 'error', 'processed', 'started', 'ran')},
-                                  'expected': spec, 'reinit': reinit, 'impl_matches_head': cli_ok and api_head_ok})
+                                  'expected': spec, 'reinit': reinit, 'impl_matches_head': cli_ok and api_head_ok,
+                                  'impl_matches_pinned': api.get('sel') == (m.get('pinned') or {}).get('sel')})
     return res
 
 
@@ -223,9 +219,7 @@ def classify(case, m, st):
         st.count('spec:%s' % m['spec']['sel'][0])
         st.count('head:%s' % m['head']['sel'][0])
         if m.get('reinit'):
-            st.count('reinit(hypothesis NoReinit false)')
-        else:
-            st.count('hypothesis NoReinit true')
+            st.count('argv names a task again after its options were initialised')
         for k in ('head', 'spec'):
             if 'closed' in m[k]:
                 st.count('closure-certificate closedB:%s' % m[k]['closed'])
@@ -288,7 +282,7 @@ def violation_kind(r):
     if not r['viol']:
         return None
     v = r['viol'][-1] if any(x['tier'] == 'cli' for x in r['viol']) else r['viol'][0]
-    return (sig_repeated(v), v['tier'], tuple(v['failed']))
+    return (False, v['tier'], tuple(v['failed']))
 
 
 def shrink(case, workdir, budget=60):
@@ -323,6 +317,7 @@ def make_witness(case, r):
     v = v[0]
     w = {'case': case, 'rendered': sellib.render(case), 'tier': v['tier'], 'failed': v['failed'], 'impl': v['impl'],
          'expected': v['expected'], 'reinit': v['reinit'], 'impl_matches_head': v['impl_matches_head'],
+         'impl_matches_pinned': v.get('impl_matches_pinned'),
          'model_of_code': r['model'].get('head')}
     return w
 
@@ -447,10 +442,10 @@ def replay(ctx, data):
         print('cli  :', {k: r['cli'][k] for k in ('exit', 'error', 'processed', 'started', 'ran')})
     print('model of the code :', r['model'].get('head'))
     print('specification     :', r['model'].get('spec'))
-    print('NoReinit          :', not r['model'].get('reinit'))
+    print('names a task again:', bool(r['model'].get('reinit')))
     for v in r['viol']:
         print('property fails (%s tier): %s%s' % (v['tier'], v['failed'],
-                                                    '  [open finding repeated-name-truncates]' if sig_repeated(v) else ''))
+                                                    '  [behaves like the code before dcfe778 (F-C12b)]' if sig_repeated(v) else ''))
     for d in r['div']:
         print('divergence:', d)
     return not r['viol']
